@@ -1180,7 +1180,15 @@ class Run:
             _capture.run = None
             core.end_run()
         self.sim.loops.clear()
-        gc.collect()
+        # coroutines of dead processes are closed by the collector outside of any loop: what their `finally` blocks
+        # complain about then ("no running event loop") is noise of the teardown, not of the run
+        import sys as _sys
+        old_hook = _sys.unraisablehook
+        _sys.unraisablehook = lambda *_a, **_k: None
+        try:
+            gc.collect()
+        finally:
+            _sys.unraisablehook = old_hook
 
 
 def _edit_add_finalizer(a: dict[str, Any]) -> Callable[[dict[str, Any]], None]:
